@@ -492,6 +492,10 @@ func (s *Sched) Step() (bool, error) {
 
 func (s *Sched) resumeTask(t *Task) error {
 	s.mu.Lock()
+	if t.st != stParked {
+		s.mu.Unlock()
+		return nil // not waiting to be resumed (done, or blocked inside the code under test)
+	}
 	from := t.label
 	t.st = stRunning
 	t.label = ""
@@ -526,6 +530,9 @@ func (s *Sched) RunTo(t *Task, labels ...string) (reached bool, err error) {
 		}
 		if t.st == stDone {
 			return false, nil
+		}
+		if t.st != stParked {
+			return false, nil // blocked inside the code under test (detached): nothing to resume
 		}
 		for _, l := range labels {
 			if t.label == l {
